@@ -65,7 +65,7 @@ func genClaimExpr(g *exprgen.G, r interface{ Intn(int) int }) string {
 	var e string
 	switch n := r.Intn(100); {
 	case n < 22: // sloppyLen
-		x := pick("s", "xs", "bs", "t", "fs()", "fxs()", "s + t", "xs[:]", "[]byte(s)", "string(bs)")
+		x := pick("s", "xs", "bs", "t", "fs()", "fxs()", "s + t", "xs[:]", "[]byte(s)", "string(bs)", "ms", "mi", "mm", "ma", "pa", "w.buf")
 		e = "len(" + x + ") " + pick(">= 0", "< 0", ">= 0", "< 0", "<= 0", ">= 1", "> 0", "< 1", ">= 00", "< 0x0", "== 0") + ""
 		if r.Intn(8) == 0 {
 			e = "0 <= len(" + x + ")"
@@ -98,14 +98,17 @@ func genClaimExpr(g *exprgen.G, r interface{ Intn(int) int }) string {
 			e = l + " && " + rr
 		}
 	case n < 65: // offBy1
-		x := pick("xs", "bs", "s", "xs", "fxs()", "xs[:]")
+		// indexed operands of every kind: slices, strings, defined slice/string/map types, arrays and
+		// pointers to arrays (rejected by the type checker when the index is a constant out of range),
+		// a struct field
+		x := pick("xs", "bs", "s", "xs", "fxs()", "xs[:]", "mi", "ms", "mm", "ma", "pa", "w.buf", "mm", "mi")
 		y := x
 		if r.Intn(8) == 0 {
 			y = pick("xs", "bs", "s")
 		}
-		e = x + "[len(" + y + ")] " + pick("> 0", "== 1", "!= 7")
+		e = x + "[len(" + y + ")] == " + x + "[0]"
 		if r.Intn(5) == 0 {
-			e = x + "[len(" + y + ")-1] > 0"
+			e = x + "[len(" + y + ")-1] == " + x + "[0]"
 		}
 	case n < 92: // dupSubExpr
 		op := pick("==", "!=", "<", ">", "<=", ">=", "&&", "||", "-", "/", "%", "+")
@@ -266,6 +269,7 @@ func runExprClaims(meta *common.Meta, seed int64, outDir string, n int) {
 	meta.Distribution["claims_fired"] = fired
 	// conversion
 	conv := exprgen.NewConv(l.Info, l.File)
+	oracleOnly := 0
 	rets := map[string]ast.Expr{}
 	for _, d := range l.File.Decls {
 		fd, ok := d.(*ast.FuncDecl)
@@ -274,6 +278,13 @@ func runExprClaims(meta *common.Meta, seed int64, outDir string, n int) {
 		}
 		ret := fd.Body.List[0].(*ast.ReturnStmt).Results[0]
 		rets[fd.Name.Name] = ret
+		if outsideFragmentRe.MatchString(byFn[fd.Name.Name].src) {
+			// operands of defined types, maps, arrays, struct fields: the model's types are structural and
+			// have no maps/arrays, so these expressions are executed by the oracle but not compared with the model
+			byFn[fd.Name.Name].term = ""
+			oracleOnly++
+			continue
+		}
 		t, err := conv.Expr(ret)
 		if err != nil {
 			panic(fmt.Sprintf("generated expression outside the model fragment: %s: %v", byFn[fd.Name.Name].src, err))
@@ -334,6 +345,7 @@ func runExprClaims(meta *common.Meta, seed int64, outDir string, n int) {
 	meta.Distinct += nflag
 	meta.Distribution["expr_cases"] = len(cases)
 	meta.Distribution["expr_flagged"] = nflag
+	meta.Distribution["expr_oracle_only_defined_types"] = oracleOnly
 	meta.Distribution["expr_dropped_untyped_constant_in_float_context"] = dropped
 
 	// ---- oracle: evaluate the flagged expression on the grid
@@ -381,12 +393,25 @@ func runExprClaims(meta *common.Meta, seed int64, outDir string, n int) {
 		class := "unclassified"
 		if impureCallRe.MatchString(m.Case.Orig) {
 			class = "impure-operand"
+		} else if f.checker == "offBy1" {
+			if ix, ok := findFlagged(l, rets[f.c.fn], f.pos, f.checker, f.text).(*ast.IndexExpr); ok {
+				switch l.Info.TypeOf(ix.X).Underlying().(type) {
+				case *types.Map:
+					class = "map-operand"
+				case *types.Slice:
+					class = "slice-operand"
+				default:
+					class = "non-slice-operand"
+				}
+			}
 		}
 		meta.Fail("C12/"+f.checker+"/"+class,
 			fmt.Sprintf("%s reports %q but `%s` evaluated to %s", f.checker, f.text, m.Case.Orig, m.Orig),
 			map[string]interface{}{"expr": m.Case.Orig, "message": f.text, "input": m.Input, "observed": m.Orig, "claimed": m.Case.Expect})
 	}
 }
+
+var outsideFragmentRe = regexp.MustCompile(`\b(ms|mi|mm|ma|pa|w|gxs)\b`)
 
 var impureCallRe = regexp.MustCompile(`\b(fi|gi|hi|fu|ff|hf|fs|fb|fbs|fxs)\(`)
 
@@ -728,8 +753,28 @@ func runCaseOrder(meta *common.Meta, seed int64, outDir string, n int) {
 type nvrCase struct {
 	fn, cond, x, y, op string
 	rets               []string
-	extra              bool // a second statement in the if body
+	pre                []string // statements before the return
+	resT, final        string
 	msgs               []string
+}
+
+// operand families of `if X == nil { ...; return X }`: the checked value, its result type, statements
+// that leave it alone, and statements that change it — directly, or indirectly through a pointer-receiver
+// method, a closure, an assignment to a prefix of X, or a call that sets a package-level variable
+var nvrFamilies = []struct {
+	xs       []string
+	resT     string
+	harmless []string
+	mutating []string
+}{
+	{[]string{"xs", "xs", "xs[:]", "(xs)", "fxs()"}, "[]int", []string{"a++", "_ = hi(a)", "k = !k"},
+		[]string{"func() { xs = []int{1} }()", "xs = []int{1}", "xs = append(xs, 1)", "px := &xs; *px = []int{4}"}},
+	{[]string{"w.err"}, "error", []string{"a++", "_ = w.peek()", "_ = hi(a)"},
+		[]string{"w.flush()", "*w = wr{err: myErr{}}", "func() { w.err = myErr{} }()", "w.err = myErr{}", "w = &wr{err: myErr{}}"}},
+	{[]string{"w.buf"}, "[]int", []string{"a++", "_ = w.peek()"},
+		[]string{"w.flush()", "*w = wr{buf: []int{2}}", "func() { w.buf = []int{3} }()", "w.buf = append(w.buf, 1)"}},
+	{[]string{"gxs"}, "[]int", []string{"a++", "_ = hi(a)"}, []string{"setG()", "gxs = []int{2}", "func() { setG() }()"}},
+	{[]string{"mi"}, "myInts", []string{"b--"}, []string{"func() { mi = myInts{1} }()", "mi = append(mi, 2)"}},
 }
 
 func runNilValReturn(meta *common.Meta, seed int64, outDir string) {
@@ -737,45 +782,51 @@ func runNilValReturn(meta *common.Meta, seed int64, outDir string) {
 	pick := func(xs ...string) string { return xs[r.Intn(len(xs))] }
 	var cases []*nvrCase
 	seen := map[string]bool{}
-	for tries := 0; tries < 2000 && len(cases) < 120; tries++ {
-		c := &nvrCase{}
-		c.x = pick("xs", "xs", "fxs()", "xs[:]", "(xs)", "xs", "bs")
-		c.op = pick("==", "==", "==", "!=")
+	for tries := 0; tries < 4000 && len(cases) < 220; tries++ {
+		fam := nvrFamilies[r.Intn(len(nvrFamilies))]
+		c := &nvrCase{resT: fam.resT, final: "nil"}
+		c.x = pick(fam.xs...)
+		c.op = pick("==", "==", "==", "==", "!=")
 		c.y = "nil"
-		ret := pick(c.x, c.x, "xs", "nil", "fxs()", "xs[:]")
-		if c.x == "bs" || ret == "bs" {
-			c.x, ret = "xs", "xs"
-		}
+		ret := pick(c.x, c.x, c.x, fam.xs[0], "nil")
 		c.cond = c.x + " " + c.op + " " + c.y
-		if r.Intn(8) == 0 {
+		if r.Intn(10) == 0 {
 			c.cond = c.y + " " + c.op + " " + c.x
 			c.x, c.y = c.y, c.x
 		}
 		c.rets = []string{ret}
-		if r.Intn(3) == 0 {
+		if r.Intn(4) == 0 {
 			c.rets = append(c.rets, pick("false", "k", "a > b"))
+			c.resT, c.final = "("+fam.resT+", bool)", "nil, true"
 		}
-		c.extra = r.Intn(8) == 0
-		key := fmt.Sprint(c.cond, c.rets, c.extra)
+		switch r.Intn(5) {
+		case 0, 1: // the documented shape: the return alone
+		case 2:
+			c.pre = []string{pick(fam.harmless...)}
+		case 3:
+			c.pre = []string{pick(fam.mutating...)}
+		default:
+			c.pre = []string{pick(fam.harmless...), pick(fam.mutating...)}
+			if r.Intn(2) == 0 {
+				c.pre[0], c.pre[1] = c.pre[1], c.pre[0]
+			}
+		}
+		key := fmt.Sprint(c.cond, c.rets, c.pre)
 		if seen[key] {
 			continue
 		}
 		seen[key] = true
+		body := renderNvr("f", c)
+		if _, err := exprgen.Load("p.go", lintHeader+exprgen.LintPreamble+body); err != nil {
+			continue
+		}
 		c.fn = fmt.Sprintf("n%d", len(cases))
 		cases = append(cases, c)
 	}
 	var src strings.Builder
 	src.WriteString(lintHeader + exprgen.LintPreamble)
 	for _, c := range cases {
-		resT, final := "[]int", "nil"
-		if len(c.rets) == 2 {
-			resT, final = "([]int, bool)", "nil, true"
-		}
-		extra := ""
-		if c.extra {
-			extra = "a++; "
-		}
-		fmt.Fprintf(&src, "func %s(%s) %s {\n\tif %s {\n\t\t%sreturn %s\n\t}\n\treturn %s\n}\n", c.fn, exprgen.Params, resT, c.cond, extra, strings.Join(c.rets, ", "), final)
+		src.WriteString(renderNvr(c.fn, c))
 	}
 	l, err := exprgen.Load("p.go", src.String())
 	if err != nil {
@@ -799,6 +850,7 @@ func runNilValReturn(meta *common.Meta, seed int64, outDir string) {
 	var dcs []*exprgen.DiffCase
 	rg := common.NewRand(seed, "c12-nvr-grid")
 	nflag := 0
+	oracleOnly := 0
 	for _, d := range l.File.Decls {
 		fd, ok := d.(*ast.FuncDecl)
 		if !ok || byFn[fd.Name.Name] == nil {
@@ -807,9 +859,21 @@ func runNilValReturn(meta *common.Meta, seed int64, outDir string) {
 		c := byFn[fd.Name.Name]
 		ifs := fd.Body.List[0].(*ast.IfStmt)
 		cond := ifs.Cond.(*ast.BinaryExpr)
+		// oracle: run the if-body up to the return and observe whether the checked value is nil there
+		if len(c.msgs) > 0 {
+			nflag++
+			pre := strings.Join(c.pre, "; ")
+			if pre != "" {
+				pre += "; "
+			}
+			text := "func() bool { if " + c.cond + " { " + pre + "return (" + l.Text(cond.X) + ") == nil }; return true }()"
+			dcs = append(dcs, &exprgen.DiffCase{ID: len(dcs), Kind: "expr", Orig: text, Expect: "true", Inputs: exprgen.Grid(rg, text, 40), Tag: c})
+		}
+		// tie: only operands of the model's fragment (w.err / w.buf are struct fields)
 		xt, err := conv.Expr(cond.X)
 		if err != nil {
-			continue // the left operand is `nil`: outside the fragment, the checker's qualifiedName test fails on the other side
+			oracleOnly++
+			continue
 		}
 		single := len(ifs.Body.List) == 1
 		var results []string
@@ -831,12 +895,7 @@ func runNilValReturn(meta *common.Meta, seed int64, outDir string) {
 		}
 		bodies = append(bodies, fmt.Sprintf("({| nvr_single_return := %v; nvr_op_is_eq := %v; nvr_y_is_nil := %v; nvr_x := %s; nvr_results := [%s] |}, %s)",
 			single, cond.Op == token.EQL, yNil, xt, strings.Join(results, "; "), coqfmt.StrList(c.msgs)))
-		idx = append(idx, fmt.Sprintf("if %s { return %v } extra=%v => %q", c.cond, c.rets, c.extra, c.msgs))
-		if len(c.msgs) > 0 {
-			nflag++
-			text := "func() bool { if " + c.cond + " { return (" + l.Text(cond.X) + ") == nil }; return true }()"
-			dcs = append(dcs, &exprgen.DiffCase{ID: len(dcs), Kind: "expr", Orig: text, Expect: "true", Inputs: exprgen.Grid(rg, text, 40), Tag: c})
-		}
+		idx = append(idx, fmt.Sprintf("if %s { %v; return %v } => %q", c.cond, c.pre, c.rets, c.msgs))
 	}
 	common.WriteFile(filepath.Join(outDir, "cases_c12_nilvalreturn.v"),
 		"From GC Require Import Base Model_Expr Model_BoolSimp Model_Claims.\n"+
@@ -848,6 +907,8 @@ func runNilValReturn(meta *common.Meta, seed int64, outDir string) {
 	meta.Distinct += nflag
 	meta.Distribution["nilvalreturn_cases"] = len(bodies)
 	meta.Distribution["nilvalreturn_flagged"] = nflag
+	meta.Distribution["nilvalreturn_oracle_only_struct_fields"] = oracleOnly
+	meta.Distribution["nilvalreturn_generated"] = len(cases)
 	mm, evals, err := exprgen.RunDiff(filepath.Join(outDir, "obs_nvr"), dcs)
 	if err != nil {
 		panic(err)
@@ -855,7 +916,19 @@ func runNilValReturn(meta *common.Meta, seed int64, outDir string) {
 	meta.Evaluations += evals
 	for _, m := range mm {
 		c := m.Case.Tag.(*nvrCase)
-		meta.Fail("C12/nilValReturn/unclassified", fmt.Sprintf("nilValReturn claims the returned %s is nil inside `if %s`, observed %s", c.x, c.cond, m.Orig),
-			map[string]interface{}{"cond": c.cond, "input": m.Input, "observed": m.Orig})
+		class := "unclassified"
+		if len(c.pre) > 0 {
+			class = "mutated-before-return"
+		}
+		meta.Fail("C12/nilValReturn/"+class, fmt.Sprintf("nilValReturn claims the returned %s is nil in `if %s { %s; return %s }`, but it is not nil at the return (%s)", c.x, c.cond, strings.Join(c.pre, "; "), strings.Join(c.rets, ", "), m.Orig),
+			map[string]interface{}{"cond": c.cond, "body": append(append([]string{}, c.pre...), "return "+strings.Join(c.rets, ", ")), "input": m.Input, "observed": m.Orig})
 	}
+}
+
+func renderNvr(name string, c *nvrCase) string {
+	pre := ""
+	for _, p := range c.pre {
+		pre += "\t\t" + p + "\n"
+	}
+	return fmt.Sprintf("func %s(%s) %s {\n\tif %s {\n%s\t\treturn %s\n\t}\n\treturn %s\n}\n", name, exprgen.Params, c.resT, c.cond, pre, strings.Join(c.rets, ", "), c.final)
 }
